@@ -278,7 +278,9 @@ fn json_seeds() -> Vec<(String, Value)> {
 }
 
 fn replacements() -> Vec<Value> {
-    vec![Value::Null, json!(true), json!(0), json!(-1), json!(4294967296u64), json!(1.5), json!(""), json!("x"), json!([]), json!({}), json!(255), json!(256), json!([0]), json!({"type": 0})]
+    vec![Value::Null, json!(true), json!(0), json!(-1), json!(4294967296u64), json!(1.5), json!(""), json!("x"), json!([]), json!({}), json!(255), json!(256), json!([0]), json!({"type": 0}),
+         // strings whose first character is multi-byte / look-alikes of valid names
+         json!("ü8"), json!("і128"), json!("é"), json!("u８"), json!("\u{0}"), json!("u8 "), json!("U8"), json!("u"), json!("u99999999999999999999"), json!("bool\u{301}")]
 }
 
 /// paths to every node of a JSON value
